@@ -141,7 +141,11 @@ fn slerp_ref<R: Real>(a: &[R], b: &[R], s: f64, th: f64, dth: f64, u: f64) -> (V
     // the arguments (1-s)*theta and s*theta are rounded products: their sines move by u*|argument| in absolute terms,
     // i.e. by u*|argument|/sin(theta) on t1, t2 (the u/sin(theta) conditioning towards opposite directions); doubled twice over
     let args = if th > 0.0 { (((1.0 - s) * th).abs() + (s * th).abs()) / th.sin().abs() } else { 1.0 };
-    (r, 2.0 * dev + (K * u * (1.0 + t1 + t2) + 4.0 * u * args) * m)
+    // both forms bound the same rounding: K u (1 + |t1| + |t2|) + 4u args term by term, and K u / sin(theta) as the quantifier
+    // states it (calibration: <= 5 u / sin(theta)); the smaller one is used
+    let term = K * u * (1.0 + t1 + t2) + 4.0 * u * args;
+    let cond = K * u * (1.0 + 1.0 / th.sin().abs());
+    (r, 2.0 * dev + term.min(cond) * m)
 }
 
 // ================================================================ quaternions
